@@ -9,8 +9,8 @@ from ..meshcheck import mesh_problems
 from ..tissue import PRNG
 
 PROP = "C19"
-RULE = ("Hypothesis draws a centre set of 6..300 points (uniform random / jittered lattice with jitter 0, 1e-6, 1e-3, "
-        "0.1 spacings / exactly square / exactly hexagonal), spacing 5..50 units, optional ring of helper centres, and "
+RULE = ("Hypothesis draws a centre set of 6..300 points (uniform random / jittered lattice with jitter 0, 1e-6, 1e-4..3e-4, 1e-3, "
+        "0.1, 0.3 spacings / exactly square / exactly hexagonal), spacing 5..50 units, optional ring of helper centres, and "
         "max_distance from tight to infinite; forsys' lattice is compared with the bounded Voronoi regions (scipy), "
         "corner by corner after rounding to 3 decimals, plus equidistance, vertex/edge sharing, common orientation and "
         "mesh consistency. Non-trivial = >= 4 cells; distinct = fingerprint of the drawn parameters.")
